@@ -36,6 +36,10 @@ def fresh_z3(solver, p, b):
     if not p["user_horizon"]:
         # no user horizon: the comparison is made inside the bounded window 0..H
         z.add(b.problem._horizon <= p["H"])
+    for i, bf in enumerate(b.buffers):
+        if not p["buffers"][i]["initial"]:
+            # free initial level: compared inside the window the specification enumerates
+            z.add(bf._buffer_levels[0] >= p["buffers"][i]["init_lo"], bf._buffer_levels[0] <= p["buffers"][i]["init_hi"])
     return z
 
 
@@ -118,6 +122,42 @@ def indicator_identity(p, b, solver, V, max_per_problem=200):
     return bad, inconclusive, checked
 
 
+def buffer_identity(p, b, solver, V, max_per_problem=200):
+    """For every v in V_must: under pin(v) the buffer change times / levels the implementation
+    holds are (i) uniquely determined and (ii) equal to the specification's history."""
+    bad, inconclusive, checked = [], 0, 0
+    if not p["buffers"]:
+        return bad, inconclusive, checked
+    z = fresh_z3(solver, p, b)
+    for n, (k, v) in enumerate(V.items()):
+        if v.get("unspec") or n >= max_per_problem:
+            continue
+        z.push()
+        z.add(PJ.match(b, p, v))
+        r = z.check()
+        if r == z3.sat:
+            checked += 1
+            m = z.model()
+            rep = [PJ.buffer_report(m, bf) for bf in b.buffers]
+            want = [[list(x) for x in h] for h in v["hist"]]
+            if rep != want:
+                bad.append({"v": v, "reported": rep, "kind": "history"})
+            else:
+                allv = [x for bf in b.buffers for x in (bf._level_changes_time + bf._buffer_levels)]
+                z.add(z3.Or([x != m.eval(x, model_completion=True) for x in allv]))
+                r2 = z.check()
+                if r2 == z3.sat:
+                    m2 = z.model()
+                    bad.append({"v": v, "reported": [PJ.buffer_report(m2, bf) for bf in b.buffers],
+                                "kind": "not-determined"})
+                elif r2 == z3.unknown:
+                    inconclusive += 1
+        elif r == z3.unknown:
+            inconclusive += 1
+        z.pop()
+    return bad, inconclusive, checked
+
+
 def pin_constraints(b, p, v):
     """Pins an abstract schedule through the PUBLIC API (documented task variables)."""
     import processscheduler as ps
@@ -137,6 +177,9 @@ def pin_constraints(b, p, v):
     for c in range(len(b.cons)):
         if p["cons"][c]["optional"]:
             ps.ConstraintFromExpression(name=f"__pin_a_{c}", expression=PJ.applied_expr(b, c) == bool(v["ap"][c]))
+    for i, bf in enumerate(b.buffers):
+        if not p["buffers"][i]["initial"]:
+            ps.ConstraintFromExpression(name=f"__pin_l_{i}", expression=bf._buffer_levels[0] == v["lv0"][i])
 
 
 def solve_pinned(p, v, **solver_kw):
